@@ -215,6 +215,31 @@ static void whole_program() {
   if (os.str() != "2000;2000;2000;2000;") viol("whole-program run produced %s", os.str().c_str());
 }
 
+/* tiny blocks (1..7 bytes) from six entry points fill whole pages, are released by another thread with free / operator delete
+   (a hardened build has to make room for its free-list link inside such a block), and the owner then allocates again */
+static void cross_thread_tiny() {
+  const int N = 30000; static void* blk[30000]; static unsigned char len[30000];
+  for (int i = 0; i < N; i++) {
+    size_t n = (size_t)(i % 7) + 1; len[i] = (unsigned char)n; char tmp[8]; memset(tmp, 'k', sizeof(tmp)); tmp[n - 1] = 0;
+    switch (i % 6) {
+      case 0: blk[i] = malloc(n); break;
+      case 1: blk[i] = calloc(1, n); break;
+      case 2: blk[i] = strdup(tmp); break;                      /* n - 1 characters + terminator */
+      case 3: blk[i] = strndup("kkkkkkkkkkkk", n - 1); break;
+      case 4: blk[i] = ::operator new(n); break;
+      default: blk[i] = realloc(NULL, n); break;
+    }
+    if (blk[i] == NULL) { viol("cross-thread release of tiny blocks: allocation %d returned NULL", i); return; }
+    memset(blk[i], 0x30 + (int)n, n);
+  }
+  int bad = 0;
+  std::thread t([&bad]() { for (int i = 0; i < N; i++) { unsigned char* c = (unsigned char*)blk[i]; for (size_t j = 0; j < len[i]; j++) if (c[j] != 0x30 + len[i]) bad++; if (i % 6 == 4) ::operator delete(blk[i]); else free(blk[i]); } });
+  t.join();
+  if (bad) { viol("cross-thread release of tiny blocks: %d bytes of live blocks had changed", bad); return; }
+  for (int round = 0; round < 2; round++) { for (int i = 0; i < N; i++) { blk[i] = malloc((size_t)(i % 7) + 1); if (!blk[i]) { viol("allocation after the cross-thread release returned NULL"); return; } } for (int i = 0; i < N; i++) free(blk[i]); }
+  sh->pairs++; sh->ok++; sh->nontrivial++;
+}
+
 int main(int argc, char** argv) {
   const char* mode = argc > 1 ? argv[1] : "?";
 #ifdef OV_STATIC
@@ -240,6 +265,8 @@ int main(int argc, char** argv) {
     if (!(WIFEXITED(st) && (WEXITSTATUS(st) == 0 || WEXITSTATUS(st) == 1))) viol("string duplication checks died (status 0x%x)", st);
     pid = fork(); if (pid == 0) { whole_program(); _exit(0); } waitpid(pid, &st, 0);
     if (!(WIFEXITED(st) && WEXITSTATUS(st) == 0)) viol("whole-program run died (status 0x%x)", st);
+    pid = fork(); if (pid == 0) { cross_thread_tiny(); _exit(0); } waitpid(pid, &st, 0);
+    if (!(WIFEXITED(st) && WEXITSTATUS(st) == 0)) viol("cross-thread release of tiny blocks: process died (status 0x%x)", st);
   }
   // glibc's own allocator must have stayed unused by this process and all the containers/streams above
   struct mallinfo2 mi = mallinfo2();
